@@ -384,6 +384,9 @@ expr_inspect(const struct expr *ex, const struct match *mh,
 			lbeg = p + 1;
 		}
 		lbeg += nspaces(lbeg);
+		/* Never skip past the beginning of the match. */
+		if (lbeg > mh->mh_val + beg)
+			lbeg = mh->mh_val + beg;
 		lend = strchr(lbeg, '\n');
 		if (lend == NULL)
 			lend = mh->mh_val + strlen(mh->mh_val);
